@@ -49,6 +49,9 @@ def handle (op : String) (args : List String) : String :=
       | .ok v => "ok\t" ++ v.toSExpr.render
       | .error err => "err\t" ++ err.render)
     | none => bad
+  | "dump", [t] => match (SExpr.parse t).bind Tree.ofSExpr with
+    | some t => "ok\t" ++ (SExpr.str (dump t)).render
+    | none => bad
   | "ev", [ds, env, e] => match parseVal ds, parseEnv env, parseExpr e with
     | some ds, some env, some e => resStr (ev (driverWorld ds) (Env.ofList env.reverse) e)
     | _, _, _ => bad
